@@ -1,40 +1,66 @@
 ------------------------------- MODULE PairTree -------------------------------
-(* The pairwise reduction of the per-partition i-vector statistics (ivector.py, IVectorMachine.fit,
-   bag branch), exactly as written:
+(* IVectorMachine.fit on a Dask bag (ivector.py, the `chunky` branch), one iteration as written:
 
-        while (length := len(stats)) > 1:
+        stats = [delayed(e_step)(machine=self, data=xx) for xx in X]            <- Build   (one e-step per partition)
+        while (length := len(stats)) > 1:                                       <- Round   (one turn of the loop)
             last = stats[-1]
-            stats = [add(stats[i], stats[length // 2 + i]) for i in range(length // 2)]
+            stats = [delayed(add)(stats[i], stats[length // 2 + i]) for i in range(length // 2)]
             if length % 2 != 0:
                 stats.append(last)
-        stats_sum = stats[0]
+        stats_sum = stats[0]                                                    <- Finish
+        new_machine = dask.compute(delayed(m_step)(self, stats_sum))[0]         <- RunM
+        for attr in ["T", "sigma"]:                                             <- CopyBack
+            setattr(self, attr, getattr(new_machine, attr))
 
    A statistic is represented by the LIST OF PARTITION IDS it has accumulated (the leaves it covers):
    the e-step result of partition i is <<i>>, add(a, b) = a \o b.  A list, not a set, so that counting a
-   partition twice is as visible as dropping it.  One action `Round` per turn of the loop, `Finish` for
-   the statement after it.  Python indices are 0-based: stats[i], stats[length//2 + i] for i in
-   range(length//2) are stats[j], stats[half + j] for j in 1..half here; stats[-1] is stats[length].
+   partition twice is as visible as dropping it.  Python indices are 0-based: stats[i], stats[length//2 + i]
+   for i in range(length//2) are stats[j], stats[half + j] for j in 1..half here; stats[-1] is stats[length].
 
-   Named deviation PAIRTREE_ODD_CARRY_DROPPED: the `if length % 2 != 0` statement is missing.       *)
+   The machine's parameters T and sigma are VERSION TAGS (number of M-steps applied).  Two memory modes:
+   Shared   - the tasks run on the caller's live machine, m_step writes host.T / host.sigma itself;
+   Isolated - the tasks run on a copy serialised with the graph: the e-steps read the snapshot, m_step
+              updates ITS copy and returns it; only CopyBack brings the listed attributes to the caller.
+
+   Named deviations: PAIRTREE_ODD_CARRY_DROPPED (the `if length % 2 != 0` statement is missing);
+   IVECTOR_SIGMA_NOT_COPIED_BACK (the copy-back list is ["T"]).                                        *)
 EXTENDS Integers, Sequences, FiniteSets, TLC, Json
 
-CONSTANTS MaxLen,       \* the initial lengths explored are 1..MaxLen
+CONSTANTS MaxLen,       \* numbers of partitions explored: 1..MaxLen
+          Modes,        \* subset of {"Shared", "Isolated"}
+          MaxIter,      \* max_iterations explored: 1..MaxIter
           Dev           \* named deviations switched on
 
-VARIABLES L,            \* number of partitions (scenario)
-          stats,        \* the Python list `stats`
-          rounds,       \* turns of the while loop taken
-          adds,         \* add tasks created
-          done          \* stats_sum has been taken
-vars == <<L, stats, rounds, adds, done>>
+VARIABLES L, mode, iters,       \* scenario: number of partitions, memory mode, max_iterations
+          phase,                \* "build" | "reduce" | "M" | "C" | "done"
+          iter,                 \* iterations completed
+          stats,                \* the Python list `stats`
+          ever,                 \* versions the e-steps of this iteration saw
+          rounds, adds,         \* turns of the while loop / add tasks of this iteration
+          msum,                 \* what the M-step received
+          host, snap, mret      \* versions: caller's machine, snapshot shipped with the graph, machine returned by m_step
+vars == <<L, mode, iters, phase, iter, stats, ever, rounds, adds, msum, host, snap, mret>>
 
+Attrs == {"T", "sigma"}
+Ver(k) == [a \in Attrs |-> k]
+CopyList == IF "IVECTOR_SIGMA_NOT_COPIED_BACK" \in Dev THEN {"T"} ELSE {"T", "sigma"}
 Add(a, b) == a \o b
+Seen == IF mode = "Shared" THEN host ELSE snap
 
-Init == /\ L \in 1..MaxLen
-        /\ stats = [i \in 1..L |-> <<i>>]
-        /\ rounds = 0 /\ adds = 0 /\ done = FALSE
+Init == /\ L \in 1..MaxLen /\ mode \in Modes /\ iters \in 1..MaxIter
+        /\ phase = "build" /\ iter = 0
+        /\ stats = <<>> /\ ever = Ver(0) /\ rounds = 0 /\ adds = 0 /\ msum = <<>>
+        /\ host = Ver(0) /\ snap = Ver(0) /\ mret = Ver(0)
 
-Round == /\ ~done /\ Len(stats) > 1
+Build == /\ phase = "build"
+         /\ snap' = host
+         /\ ever' = host                      \* the graph is submitted at once: every e-step sees this machine
+         /\ stats' = [i \in 1..L |-> <<i>>]
+         /\ rounds' = 0 /\ adds' = 0
+         /\ phase' = "reduce"
+         /\ UNCHANGED <<L, mode, iters, iter, msum, host, mret>>
+
+Round == /\ phase = "reduce" /\ Len(stats) > 1
          /\ LET length == Len(stats)
                 half == length \div 2
                 last == stats[length]
@@ -43,13 +69,27 @@ Round == /\ ~done /\ Len(stats) > 1
                              THEN Append(paired, last) ELSE paired
                /\ adds' = adds + half
          /\ rounds' = rounds + 1
-         /\ UNCHANGED <<L, done>>
+         /\ UNCHANGED <<L, mode, iters, phase, iter, ever, msum, host, snap, mret>>
 
-Finish == /\ ~done /\ Len(stats) <= 1
-          /\ done' = TRUE
-          /\ UNCHANGED <<L, stats, rounds, adds>>
+Finish == /\ phase = "reduce" /\ Len(stats) <= 1
+          /\ msum' = stats[1]
+          /\ phase' = "M"
+          /\ UNCHANGED <<L, mode, iters, iter, stats, ever, rounds, adds, host, snap, mret>>
 
-Next == Round \/ Finish
+RunM == /\ phase = "M"
+        /\ IF mode = "Shared"
+              THEN /\ host' = Ver(iter + 1) /\ mret' = Ver(iter + 1)          \* m_step(self, ..) returns self
+              ELSE /\ mret' = [a \in Attrs |-> snap[a] + 1] /\ UNCHANGED host   \* the worker's copy
+        /\ phase' = "C"
+        /\ UNCHANGED <<L, mode, iters, iter, stats, ever, rounds, adds, msum, snap>>
+
+CopyBack == /\ phase = "C"
+            /\ host' = [a \in Attrs |-> IF a \in CopyList THEN mret[a] ELSE host[a]]
+            /\ iter' = iter + 1
+            /\ phase' = IF iter + 1 < iters THEN "build" ELSE "done"
+            /\ UNCHANGED <<L, mode, iters, stats, ever, rounds, adds, msum, snap, mret>>
+
+Next == Build \/ Round \/ Finish \/ RunM \/ CopyBack
 Spec == Init /\ [][Next]_vars /\ WF_vars(Next)
 
 \* ---------------------------------------------------------------- properties (C12)
@@ -58,17 +98,23 @@ Flat(s) == IF s = <<>> THEN <<>> ELSE Head(s) \o Flat(Tail(s))
 IsPermOf(q, S) == Len(q) = Cardinality(S) /\ {q[i] : i \in 1..Len(q)} = S
 
 \* conservation, at every turn of the loop: the statistics in the list cover every partition exactly once
-LeavesConserved == IsPermOf(Flat(stats), 1..L)
+LeavesConserved == phase = "reduce" => IsPermOf(Flat(stats), 1..L)
 \* the statistic handed to the M-step covers every partition exactly once
-EveryLeafExactlyOnce == done => Len(stats) = 1 /\ IsPermOf(stats[1], 1..L)
-\* the loop ends: the list gets strictly shorter at every turn, and stats_sum is eventually taken
-Shrinks == [][Len(stats') < Len(stats) \/ UNCHANGED stats]_vars
-Terminates == <>done
+EveryLeafExactlyOnce == phase \in {"M", "C"} => IsPermOf(msum, 1..L)
+\* the loop ends: the list gets strictly shorter at every turn, and training completes
+Shrinks == [][phase = "reduce" /\ phase' = "reduce" => Len(stats') < Len(stats)]_vars
+Terminates == <>(phase = "done")
 \* a binary tree over L leaves has L - 1 inner nodes; its height is ceil(log2 L)
 RECURSIVE Pow2(_)
 Pow2(k) == IF k = 0 THEN 1 ELSE 2 * Pow2(k - 1)
-TreeShape == done => adds = L - 1 /\ Pow2(rounds) >= L /\ (rounds > 0 => Pow2(rounds - 1) < L)
+TreeShape == phase \in {"M", "C"} => adds = L - 1 /\ Pow2(rounds) >= L /\ (rounds > 0 => Pow2(rounds - 1) < L)
+\* every e-step of an iteration is computed from the parameters left by the previous iteration
+AllContribsAtCurrentVersion == phase \in {"reduce", "M", "C"} => ever = Ver(iter)
+\* after every iteration the caller's machine holds the new T and the new sigma, in both memory modes
+HostFreshAfterIter == phase \in {"build", "done"} => host = Ver(iter)
 
 \* ---------------------------------------------------------------- export (terminal states)
-Export == done => PrintT(ToJson([L |-> L, rounds |-> rounds, adds |-> adds, sum |-> stats[1]]))
+Export == phase = "done" =>
+    PrintT(ToJson([L |-> L, mode |-> mode, iters |-> iters, rounds |-> rounds, adds |-> adds, sum |-> msum,
+                   host |-> [T |-> host["T"], sigma |-> host["sigma"]]]))
 =============================================================================
